@@ -14,6 +14,7 @@ pub fn run(args: &Args) -> Report {
     let per_thread: u64 = args.get("per-thread").map(|v| v.parse().expect("per-thread")).unwrap_or(6);
     let small = args.get("miri-small") == Some("1");
     let barrier = Arc::new(Barrier::new(n));
+    let burst_barrier = Arc::new(Barrier::new(n));
     let seed = args.seed;
     let proc_tag: u64 = args.get("proc").map(|v| v.parse().unwrap()).unwrap_or(0) * 64 + args.get("shard").map(|v| v.parse().unwrap()).unwrap_or(0);
     let cfg = if small {
@@ -24,6 +25,7 @@ pub fn run(args: &Args) -> Report {
     let handles: Vec<_> = (0..n)
         .map(|t| {
             let barrier = barrier.clone();
+            let burst_barrier = burst_barrier.clone();
             let args = args.clone();
             std::thread::spawn(move || {
                 let mut rep = Report::new();
@@ -92,6 +94,48 @@ pub fn run(args: &Args) -> Report {
                         Err(e) => rep.violation("C18/rust/xof-panic", e, args.replay_args(0, p)),
                     }
                 }
+                // a burst of one-shot calls with this thread's own short contexts / keys, racing
+                // with the other threads' bursts (shared caches introduced "for speed" show here)
+                let my_ctx: Vec<String> = (0..3).map(|j| format!("c18 thread {} ctx {} {}", t, j, rng.below(1000))).collect();
+                let my_key = rng.array32();
+                let burst = if small { 6 } else { 20_000 };
+                // phase 1: tight loop of calls only (maximal overlap between threads; all threads
+                // enter it together), phase 2: verification against the model
+                let mut outs: Vec<[u8; 32]> = Vec::with_capacity(burst);
+                burst_barrier.wait();
+                let r1 = guarded(|| {
+                    for k in 0..burst {
+                        let msg = [(k & 0xff) as u8, (k >> 8) as u8, t as u8];
+                        let c = &my_ctx[k % 3];
+                        outs.push(match k % 4 {
+                            0 | 1 => blake3::derive_key(c, &msg),
+                            2 => *blake3::keyed_hash(&my_key, &msg).as_bytes(),
+                            _ => *blake3::hash(&msg).as_bytes(),
+                        });
+                    }
+                });
+                if let Err(p) = r1 {
+                    rep.violation("C18/rust/oneshot-burst-panic", format!("thread {}: {}", t, p), args.replay_args(0, P::Native));
+                }
+                let mut bad = 0u64;
+                for (k, got) in outs.iter().enumerate() {
+                    let msg = [(k & 0xff) as u8, (k >> 8) as u8, t as u8];
+                    let c = &my_ctx[k % 3];
+                    let want = match k % 4 {
+                        0 | 1 => specmodel::hash(&Mode::DeriveKey(c.clone().into_bytes()), &msg),
+                        2 => specmodel::hash(&Mode::Keyed(my_key), &msg),
+                        _ => specmodel::hash(&Mode::Hash, &msg),
+                    };
+                    if *got != want {
+                        bad += 1;
+                        if bad == 1 {
+                            rep.violation("C18/rust/oneshot-burst-mismatch", format!("thread {} of {}: one-shot call #{} (kind {}, context {:?}) returned {} while other threads were hashing; alone it returns {}", t, n, k, k % 4, c, hex(got), hex(&want)), args.replay_args(0, P::Native));
+                        }
+                    }
+                }
+                rep.count("oneshot_burst_wrong_results", bad);
+                rep.evaluations += burst as u64;
+                rep.count("oneshot_burst_calls", burst as u64 * 3);
                 rep.seen("thread_platforms", p.name());
                 rep
             })
